@@ -151,6 +151,10 @@ pub fn classify(e: &SchemeError) -> ErrKind {
             LogicError::UnexpectedExpression(_) => ErrKind::Other("UnexpectedExpression".into()),
             LogicError::Extension(m) if m.starts_with("verif: evaluation fuel exhausted") => ErrKind::Other(NON_TERMINATION.into()),
             LogicError::Extension(_) => ErrKind::Other("Extension".into()),
+            // a variant added by a later version of the repository: classified by its name, so
+            // that an additive change does not stop the harness from compiling
+            #[allow(unreachable_patterns)]
+            other => ErrKind::Other(format!("{:?}", other).split(|c: char| !c.is_alphanumeric()).next().unwrap_or("").to_string()),
         },
         ErrorData::Syntax(SyntaxError::MacroMissMatch(_, _)) => ErrKind::NoMatchingRule,
         ErrorData::Syntax(s) => ErrKind::Syntax(syntax_variant(s)),
